@@ -231,7 +231,32 @@ def run_shard(module: Any, tier: str, seed: int, shard: int, nshards: int,
     stats = Stats()
     violations: list[dict] = []
 
-    for sub in module.subs(tier):
+    all_subs = list(module.subs(tier))
+    reg_dir = os.path.join(VERIF, "regressions", module.PROPERTY)
+    if shard == 0 and os.path.isdir(reg_dir) and not only:
+        by_name = {s_.name: s_ for s_ in all_subs}
+        for fn in sorted(os.listdir(reg_dir)):
+            if not fn.endswith(".json"):
+                continue
+            with open(os.path.join(reg_dir, fn)) as f:
+                body = json.load(f)
+            sub_ = by_name.get(body["sub"])
+            if sub_ is None:
+                continue
+            try:
+                if sub_.machine is not None:
+                    info = replay_machine(sub_.machine.base, body["case"])
+                else:
+                    info = sub_.run(body["case"])
+                stats.record("regressions", body["case"], info)
+            except Violation as v:
+                if v.key in known_keys:
+                    stats.known_hits[v.key] += 1
+                else:
+                    violations.append({"sub": body["sub"], "key": v.key, "msg": f"[regression {fn}] " + v.msg,
+                                       "case": body["case"]})
+
+    for sub in all_subs:
         if only and sub.name != only:
             continue
         t0 = time.time()
@@ -453,7 +478,7 @@ def main_check(module: Any, argv: list[str]) -> int:
     # ---- coordinator -------------------------------------------------------
     nshards = args.nshards or getattr(module, "SHARDS", {}).get(
         tier, 4 if tier == "quick" else 16)
-    work = os.path.join(VERIF, ".work", prop)
+    work = os.path.join(VERIF, ".work", f"{prop}-{os.getpid()}")
     os.makedirs(work, exist_ok=True)
     procs = []
     for k in range(nshards):
@@ -481,6 +506,9 @@ def main_check(module: Any, argv: list[str]) -> int:
             continue
         with open(out) as f:
             results.append(json.load(f))
+    if not harness_errors:
+        import shutil
+        shutil.rmtree(work, ignore_errors=True)
     if harness_errors:
         k, txt = harness_errors[0]
         print(f"HARNESS-ERROR in {len(harness_errors)} shard(s); first: shard={k}\n{txt[-1800:]}",
